@@ -262,6 +262,30 @@ Proof.
   rewrite Forall_forall in *. intros x Hx. apply filter_In in Hx. apply Hall. apply Hx.
 Qed.
 
+Lemma Forall2_in_r {A B} (R : A -> B -> Prop) l ps p : Forall2 R l ps -> In p ps -> exists m, In m l /\ R m p.
+Proof.
+  induction 1 as [|m q l ps Hmq Hl IH]; intros Hp; [destruct Hp|].
+  destruct Hp as [ <- |Hp]; [exists m; split; [left; reflexivity|exact Hmq]|].
+  destruct (IH Hp) as [m' [Hm' Hr]]. exists m'. split; [right; exact Hm'|exact Hr].
+Qed.
+
+Lemma Forall2_in_l {A B} (R : A -> B -> Prop) l ps m : Forall2 R l ps -> In m l -> exists p, In p ps /\ R m p.
+Proof.
+  induction 1 as [|m' q l ps Hmq Hl IH]; intros Hm; [destruct Hm|].
+  destruct Hm as [ <- |Hm]; [exists q; split; [left; reflexivity|exact Hmq]|].
+  destruct (IH Hm) as [p [Hp Hr]]. exists p. split; [right; exact Hp|exact Hr].
+Qed.
+
+Lemma Forall2_sorted {A B} (R : A -> B -> Prop) (RA : A -> A -> Prop) (RB : B -> B -> Prop) l ps :
+  (forall a b p q, R a p -> R b q -> RA a b -> RB p q) ->
+  Forall2 R l ps -> StronglySorted RA l -> StronglySorted RB ps.
+Proof.
+  intros Hmono. induction 1 as [|m q l ps Hmq Hl IH]; intros Hs; [constructor|].
+  inversion Hs as [|? ? Hs' Hlt]; subst. constructor; [apply IH; exact Hs'|].
+  apply Forall_forall. intros p Hp. destruct (Forall2_in_r R l ps p Hl Hp) as [m' [Hm' Hr]].
+  rewrite Forall_forall in Hlt. eapply Hmono; eauto.
+Qed.
+
 Lemma parts_agg c prof t ms l parts :
   (forall m, In m ms <-> selected c prof m) -> StronglySorted id_lt ms ->
   (forall m, In m (c_modules c) -> NoDup (map f_rel (m_files m))) ->
@@ -275,30 +299,21 @@ Proof.
   pose proof (sorted_filter id_lt (fun m => mtype_eqb (m_type m) TInstructions && permits (t_name t) m) ms Hsorted) as Hs.
   fold (mods_for (t_name t) TInstructions ms) in Hs.
   split.
-  - clear Hc Hall. induction HF as [|m p l ps Hmp Hl IH]; [constructor|].
-    inversion Hs as [|? ? Hs' Hlt]; subst. constructor; [apply IH; exact Hs'|].
-    destruct Hmp as [f [_ [_ ->]]]. clear IH Hs Hs'. induction Hl as [|m' p' l' ps' Hmp' Hl' IH']; [constructor|].
-    inversion Hlt as [|? ? Hm' Hrest]; subst. constructor; [|apply IH'; exact Hrest].
-    destruct Hmp' as [f' [_ [_ ->]]]. exact Hm'.
+  - eapply Forall2_sorted; [|exact HF|exact Hs].
+    intros a b p q [f [_ [_ ->]]] [f' [_ [_ ->]]] Hab. exact Hab.
   - intros p. split.
-    + intros Hp. clear Hs Hc. induction HF as [|m q l ps Hmq Hl IH]; [destruct Hp|].
-      destruct Hp as [ <- |Hp].
-      * destruct Hmq as [f [Hsh [Hrel ->]]]. destruct (Hall m (or_introl eq_refl)) as [Hty _].
-        assert (Hm : In m (mods_for (t_name t) TInstructions ms)) by (left; reflexivity).
-        apply mods_for_iff in Hm as [Hin [_ Hperm]]. exists m, f. repeat split; try assumption; try apply Hsel; try exact Hin; try apply Hsh.
-      * apply IH; [intros m' Hm'; apply Hall; right; exact Hm'|exact Hp].
+    + intros Hp. destruct (Forall2_in_r _ _ _ p HF Hp) as [m [Hm [f [Hsh [Hrel ->]]]]].
+      destruct (Hall m Hm) as [Hty _]. apply mods_for_iff in Hm as [Hin [_ Hperm]].
+      exists m, f. split; [apply Hsel; exact Hin|]. repeat split; try assumption; apply Hsh.
     + intros [m [f [Hselm [Hty [Hperm [Hsh [Hrel ->]]]]]]].
       assert (Hm : In m (mods_for (t_name t) TInstructions ms)) by (apply mods_for_iff; split; [apply Hsel; exact Hselm|split; assumption]).
-      clear Hs Hc. induction HF as [|m' q l ps Hmq Hl IH]; [destruct Hm|].
-      destruct Hm as [ -> |Hm].
-      * left. destruct Hmq as [f' [Hsh' [Hrel' ->]]]. f_equal. f_equal.
-        destruct (Hall m (or_introl eq_refl)) as [_ Hndm].
-        apply ships_iff in Hsh. apply ships_iff in Hsh'.
-        pose proof (find_file_spec [agents_md] (copied (m_files m)) (copied_nodup _ Hndm)) as Hsp.
-        assert (X1 : find_file [agents_md] (copied (m_files m)) = Some f) by (apply Hsp; split; assumption).
-        assert (X2 : find_file [agents_md] (copied (m_files m)) = Some f') by (apply Hsp; split; assumption).
-        congruence.
-      * right. apply IH; [intros m'' Hm''; apply Hall; right; exact Hm''|exact Hm].
+      destruct (Forall2_in_l _ _ _ m HF Hm) as [q [Hq [f' [Hsh' [Hrel' ->]]]]].
+      destruct (Hall m Hm) as [_ Hndm].
+      apply ships_iff in Hsh. apply ships_iff in Hsh'.
+      pose proof (find_file_spec [agents_md] (copied (m_files m)) (copied_nodup _ Hndm)) as Hsp.
+      assert (X1 : find_file [agents_md] (copied (m_files m)) = Some f) by (apply Hsp; split; assumption).
+      assert (X2 : find_file [agents_md] (copied (m_files m)) = Some f') by (apply Hsp; split; assumption).
+      assert (f = f') by congruence. subst f'. exact Hq.
 Qed.
 
 (* strictly sorted part lists with the same members are equal *)
@@ -314,14 +329,320 @@ Proof.
   { intros l Hs. pose proof (Hnd l Hs) as X. clear - X. induction l as [|a r IH]; [constructor|].
     simpl in X. inversion X as [|? ? Hn Hr]; subst. constructor; [|apply IH; exact Hr].
     intros Hin. apply Hn. apply in_map. exact Hin. }
-  set (leb := fun a b : str * list N => str_leb (fst a) (fst b)).
-  assert (Hle : forall l, StronglySorted part_lt l -> StronglySorted (le leb) l).
+  set (pleb := fun a b : str * list N => str_leb (fst a) (fst b)).
+  assert (Hle : forall l, StronglySorted part_lt l -> StronglySorted (le pleb) l).
   { induction l as [|a r IH]; intros Hs; [constructor|]. inversion Hs as [|? ? Hr Hall]; subst.
-    constructor; [apply IH; exact Hr|]. eapply Forall_impl; [|exact Hall]. intros y Hy. unfold le, leb. apply str_lt_leb. exact Hy. }
-  apply (sorted_perm_unique leb).
-  - intros x y Hx Hy Hxy Hyx. unfold leb in *. pose proof (str_leb_antisym _ _ Hxy Hyx) as E.
+    constructor; [apply IH; exact Hr|]. eapply Forall_impl; [|exact Hall]. intros y Hy. unfold le, pleb. apply str_lt_leb. exact Hy. }
+  apply (sorted_perm_unique pleb).
+  - intros x y Hx Hy Hxy Hyx. unfold pleb in *. pose proof (str_leb_antisym _ _ Hxy Hyx) as E.
     apply (NoDup_map_inj fst l1 (Hnd l1 H1)); assumption.
   - apply Hle. exact H1.
   - apply Hle. exact H2.
   - apply NoDup_Permutation; [apply Hnd2; exact H1|apply Hnd2; exact H2|exact Hiff].
 Qed.
+
+(* ---------- rule_output, inverted ---------- *)
+
+Lemma ro_skills c prof t o dc dir k b :
+  rule_output c prof t (RSkills o dc dir) k b <->
+  exists m f, selected c prof m /\ m_type m = TSkill /\ permitted (t_name t) m /\ ships m f /\
+              k = out_key t dir [skill_name m; rel_string f] /\ b = f_bytes f.
+Proof.
+  split.
+  - intros H. inversion H; subst. eexists _, _. split; [eassumption|]. split; [eassumption|]. split; [eassumption|]. split; [eassumption|]. split; reflexivity.
+  - intros [m [f [H1 [H2 [H3 [H4 [-> ->]]]]]]]. constructor; assumption.
+Qed.
+
+Lemma ro_single c prof t ty o dc dir rn k b :
+  rule_output c prof t (RSingle ty o dc dir rn) k b <->
+  exists m f, selected c prof m /\ m_type m = ty /\ permitted (t_name t) m /\ ships m f /\
+              k = out_key t dir [rn (last_name f)] /\ b = f_bytes f.
+Proof.
+  split.
+  - intros H. inversion H; subst. eexists _, _. split; [eassumption|]. split; [reflexivity|]. split; [eassumption|]. split; [eassumption|]. split; reflexivity.
+  - intros [m [f [H1 [H2 [H3 [H4 [-> ->]]]]]]]. subst ty. apply (O_single c prof t (m_type m) o dc dir rn m f); try assumption; reflexivity.
+Qed.
+
+Lemma ro_cursor c prof t o dc dir k b :
+  rule_output c prof t (RCursor o dc dir) k b <->
+  exists m f, selected c prof m /\ m_type m = TInstructions /\ permitted (t_name t) m /\ ships m f /\ f_rel f = [agents_md] /\
+              k = out_key t dir [fs_key m ++ cursor_rule_ext] /\ b = cursor_rule_bytes m (f_bytes f).
+Proof.
+  split.
+  - intros H. inversion H; subst. eexists _, _. split; [eassumption|]. split; [eassumption|]. split; [eassumption|]. split; [eassumption|]. split; [eassumption|]. split; reflexivity.
+  - intros [m [f [H1 [H2 [H3 [H4 [H5 [-> ->]]]]]]]]. apply (O_cursor c prof t o dc dir m f); assumption.
+Qed.
+
+Lemma ro_agg c prof t o dc dir fname sep k b :
+  rule_output c prof t (RAgg o dc dir fname sep) k b <->
+  exists parts, parts <> [] /\ agg_parts c prof t parts /\ k = out_key t dir [fname] /\ b = combine sep parts.
+Proof.
+  split.
+  - intros H. inversion H; subst. eexists. split; [eassumption|]. split; [eassumption|]. split; reflexivity.
+  - intros [parts [H1 [H2 [-> ->]]]]. constructor; assumption.
+Qed.
+
+(* ---------- blocks of an adapter vs. rules ---------- *)
+
+Definition emit_out (steps : list step) (k : key) (b : list N) : Prop :=
+  exists em, In (Emit em) steps /\ e_key em = k /\ e_bytes em = b.
+
+Lemma emit_out_app a b k x : emit_out (a ++ b) k x <-> emit_out a k x \/ emit_out b k x.
+Proof.
+  unfold emit_out. split.
+  - intros [em [H R]]. apply in_app_or in H as [H|H]; [left|right]; exists em; split; assumption.
+  - intros [[em [H R]]|[em [H R]]]; exists em; (split; [apply in_or_app|exact R]); [left|right]; exact H.
+Qed.
+
+Lemma emit_out_nil k x : ~ emit_out [] k x.
+Proof. intros [em [[] _]]. Qed.
+
+Lemma emit_out_fail c k x : ~ emit_out [Fail c] k x.
+Proof. intros [em [[H|[]] _]]. discriminate. Qed.
+
+Section Blocks.
+  Variables (c : cfg) (prof : str) (ms : list module).
+  Hypothesis Hsel : forall m, In m ms <-> selected c prof m.
+  Hypothesis Hsorted : StronglySorted id_lt ms.
+  Hypothesis Hnd : forall m, In m (c_modules c) -> NoDup (map f_rel (m_files m)).
+  Hypothesis Hok : cfg_ok c.
+
+  Lemma sel_in m : In m ms -> In m (c_modules c).
+  Proof. intros H. apply Hsel in H. apply H. Qed.
+
+  Lemma skills_block t dests o dc : 
+    no_fail (flat_map (fun m => skill_steps (t_name t) m dests) (mods_for (t_name t) TSkill ms)) ->
+    forall k b, emit_out (flat_map (fun m => skill_steps (t_name t) m dests) (mods_for (t_name t) TSkill ms)) k b <->
+                exists d, In d dests /\ rule_output c prof t (RSkills o dc d) k b.
+  Proof.
+    intros Hnf k b. rewrite no_fail_flat_map in Hnf. unfold emit_out. split.
+    - intros [em [H [Hk Hb]]]. apply in_flat_map in H as [m [Hm H]].
+      apply (skill_steps_spec _ _ _ _ (Hnf m Hm)) in H as [f [d [Hsh [Hd ->]]]].
+      apply mods_for_iff in Hm as [Hin [Hty Hp]].
+      exists d. split; [exact Hd|]. apply ro_skills. exists m, f.
+      split; [apply Hsel; exact Hin|]. split; [exact Hty|]. split; [exact Hp|]. split; [exact Hsh|].
+      split; [symmetry; exact Hk|symmetry; exact Hb].
+    - intros [d [Hd H]]. apply ro_skills in H as [m [f [Hs [Hty [Hp [Hsh [-> ->]]]]]]].
+      assert (Hm : In m (mods_for (t_name t) TSkill ms)) by (apply mods_for_iff; split; [apply Hsel; exact Hs|split; assumption]).
+      exists (mkEmit (t_name t) d [skill_name m; rel_string f] (f_bytes f) [m_id m]).
+      split; [|split; reflexivity]. apply in_flat_map. exists m. split; [exact Hm|].
+      apply (skill_steps_spec _ _ _ _ (Hnf m Hm)). exists f, d. split; [exact Hsh|]. split; [exact Hd|reflexivity].
+  Qed.
+
+  Lemma single_block t ty default rn dests o dc : (ty = TPrompt \/ ty = TCommand) ->
+    no_fail (flat_map (fun m => single_steps (t_name t) m default rn dests) (mods_for (t_name t) ty ms)) ->
+    forall k b, emit_out (flat_map (fun m => single_steps (t_name t) m default rn dests) (mods_for (t_name t) ty ms)) k b <->
+                exists d, In d dests /\ rule_output c prof t (RSingle ty o dc d rn) k b.
+  Proof.
+    intros Hty Hnf k b. rewrite no_fail_flat_map in Hnf. unfold emit_out.
+    assert (Hpre : forall m, In m (mods_for (t_name t) ty ms) ->
+                             (m_type m = TPrompt \/ m_type m = TCommand) /\ Forall file_ok (m_files m)).
+    { intros m Hm. apply mods_for_iff in Hm as [Hin [Hmt _]]. split; [rewrite Hmt; exact Hty|].
+      unfold cfg_ok in Hok. rewrite Forall_forall in Hok. apply (Hok m (sel_in m Hin)). }
+    split.
+    - intros [em [H [Hk Hb]]]. apply in_flat_map in H as [m [Hm H]]. destruct (Hpre m Hm) as [Hmt Hf].
+      apply (single_steps_spec _ _ _ _ _ _ Hmt Hf (Hnf m Hm)) in H as [f [d [Hsh [Hd ->]]]].
+      apply mods_for_iff in Hm as [Hin [Hmty Hp]].
+      exists d. split; [exact Hd|]. apply ro_single. exists m, f.
+      split; [apply Hsel; exact Hin|]. split; [exact Hmty|]. split; [exact Hp|]. split; [exact Hsh|].
+      split; [symmetry; exact Hk|symmetry; exact Hb].
+    - intros [d [Hd H]]. apply ro_single in H as [m [f [Hs [Hmty [Hp [Hsh [-> ->]]]]]]].
+      assert (Hm : In m (mods_for (t_name t) ty ms)) by (apply mods_for_iff; split; [apply Hsel; exact Hs|split; assumption]).
+      destruct (Hpre m Hm) as [Hmt Hf].
+      exists (mkEmit (t_name t) d [rn (last_name f)] (f_bytes f) [m_id m]).
+      split; [|split; reflexivity]. apply in_flat_map. exists m. split; [exact Hm|].
+      apply (single_steps_spec _ _ _ _ _ _ Hmt Hf (Hnf m Hm)). exists f, d. split; [exact Hsh|]. split; [exact Hd|reflexivity].
+  Qed.
+
+  Lemma cursor_block t dir o dc : t_name t = t_cursor ->
+    no_fail (flat_map (fun m => cursor_steps m dir) (mods_for t_cursor TInstructions ms)) ->
+    forall k b, emit_out (flat_map (fun m => cursor_steps m dir) (mods_for t_cursor TInstructions ms)) k b <->
+                rule_output c prof t (RCursor o dc dir) k b.
+  Proof.
+    intros Hn Hnf k b. rewrite no_fail_flat_map in Hnf. unfold emit_out.
+    assert (Hpre : forall m, In m (mods_for t_cursor TInstructions ms) -> m_type m = TInstructions /\ NoDup (map f_rel (m_files m))).
+    { intros m Hm. apply mods_for_iff in Hm as [Hin [Hmt _]]. split; [exact Hmt|apply Hnd, sel_in, Hin]. }
+    split.
+    - intros [em [H [Hk Hb]]]. apply in_flat_map in H as [m [Hm H]]. destruct (Hpre m Hm) as [Hmt Hndm].
+      apply (cursor_steps_spec _ _ _ Hmt Hndm (Hnf m Hm)) in H as [f [Hsh [Hrel ->]]].
+      apply mods_for_iff in Hm as [Hin [_ Hp]]. apply ro_cursor. exists m, f.
+      split; [apply Hsel; exact Hin|]. rewrite Hn. split; [exact Hmt|]. split; [exact Hp|]. split; [exact Hsh|]. split; [exact Hrel|].
+      split; [|symmetry; exact Hb].
+      rewrite <- Hk. unfold e_key, out_key. simpl. rewrite Hn. reflexivity.
+    - intros H. apply ro_cursor in H as [m [f [Hs [Hmty [Hp [Hsh [Hrel [-> ->]]]]]]]]. rewrite Hn in Hp.
+      assert (Hm : In m (mods_for t_cursor TInstructions ms)) by (apply mods_for_iff; split; [apply Hsel; exact Hs|split; assumption]).
+      destruct (Hpre m Hm) as [Hmt Hndm].
+      exists (mkEmit t_cursor dir [fs_key m ++ cursor_rule_ext] (cursor_rule_bytes m (f_bytes f)) [m_id m]).
+      split; [|split; [unfold e_key, out_key; simpl; rewrite Hn; reflexivity|reflexivity]].
+      apply in_flat_map. exists m. split; [exact Hm|].
+      apply (cursor_steps_spec _ _ _ Hmt Hndm (Hnf m Hm)). exists f. split; [exact Hsh|]. split; [exact Hrel|reflexivity].
+  Qed.
+
+  Lemma agg_block t sep parts dests o dc :
+    collect_parts (mods_for (t_name t) TInstructions ms) = Ok parts ->
+    forall k b, emit_out (agg_steps (t_name t) sep parts dests) k b <->
+                exists d, In d dests /\ rule_output c prof t (RAgg o dc (fst d) (snd d) sep) k b.
+  Proof.
+    intros Hc k b. pose proof (parts_agg c prof t ms _ parts Hsel Hsorted Hnd eq_refl Hc) as Hagg.
+    unfold emit_out. split.
+    - intros [em [H [Hk Hb]]].
+      assert (Hne : parts <> []) by (intros ->; simpl in H; destruct H).
+      apply agg_steps_in in H as [d [Hd ->]].
+      exists d. split; [exact Hd|]. apply ro_agg. exists parts. split; [exact Hne|].
+      split; [exact Hagg|]. split; [symmetry; exact Hk|symmetry; exact Hb].
+    - intros [d [Hd H]]. apply ro_agg in H as [parts' [Hne [Hagg' [-> ->]]]].
+      assert (parts' = parts).
+      { destruct Hagg as [S1 M1], Hagg' as [S2 M2]. apply parts_unique; try assumption. intros p. rewrite M1, M2. tauto. }
+      subst parts'. exists (mkEmit (t_name t) (fst d) [snd d] (combine sep parts) (map fst parts)).
+      split; [|split; reflexivity]. unfold agg_steps. destruct parts as [|p ps]; [congruence|].
+      apply in_map_iff. exists d. split; [reflexivity|exact Hd].
+  Qed.
+End Blocks.
+
+(* ---------- the adapters against the documented rule tables ---------- *)
+
+Lemma ex_in_cons {A} (P : A -> Prop) a l : (exists r, In r (a :: l) /\ P r) <-> P a \/ exists r, In r l /\ P r.
+Proof.
+  split.
+  - intros [r [[ <- |Hin] HP]]; [left; exact HP|right; exists r; split; assumption].
+  - intros [HP|[r [Hin HP]]]; [exists a; split; [left; reflexivity|exact HP]|exists r; split; [right; exact Hin|exact HP]].
+Qed.
+
+Lemma ex_in_nil {A} (P : A -> Prop) : (exists r, In r [] /\ P r) <-> False.
+Proof. split; [intros [r [[] _]]|intros []]. Qed.
+
+Lemma ex_when1 {A} (Q : A -> Prop) w d : (exists x, In x (when w [d]) /\ Q x) <-> w = true /\ Q d.
+Proof.
+  split.
+  - intros [x [Hin HQ]]. apply when_in in Hin as [Hw [ <- |[]]]. split; assumption.
+  - intros [Hw HQ]. exists d. split; [apply when_in; split; [exact Hw|left; reflexivity]|exact HQ].
+Qed.
+
+Lemma ex_when2 {A} (Q : A -> Prop) w1 d1 w2 d2 :
+  (exists x, In x (when w1 [d1] ++ when w2 [d2]) /\ Q x) <-> (w1 = true /\ Q d1) \/ (w2 = true /\ Q d2).
+Proof.
+  split.
+  - intros [x [Hin HQ]]. apply in_app_or in Hin as [Hin|Hin]; apply when_in in Hin as [Hw [ <- |[]]]; [left|right]; split; assumption.
+  - intros [[Hw HQ]|[Hw HQ]].
+    + exists d1. split; [apply in_or_app; left; apply when_in; split; [exact Hw|left; reflexivity]|exact HQ].
+    + exists d2. split; [apply in_or_app; right; apply when_in; split; [exact Hw|left; reflexivity]|exact HQ].
+Qed.
+
+Lemma ex_single1 {A} (Q : A -> Prop) d : (exists x, In x [d] /\ Q x) <-> Q d.
+Proof. split; [intros [x [[ <- |[]] HQ]]; exact HQ|intros HQ; exists d; split; [left; reflexivity|exact HQ]]. Qed.
+
+Lemma flat_map_guard_false {A} (l : list A) : flat_map (fun _ : A => @nil step) l = [].
+Proof. induction l; simpl; auto. Qed.
+
+Lemma or_false_r (P : Prop) : P \/ False <-> P.
+Proof. split; [intros [H|[]]; exact H|intros H; left; exact H]. Qed.
+Lemma false_and (P : Prop) : false = true /\ P <-> False.
+Proof. split; [intros [H _]; discriminate|intros []]. Qed.
+Lemma false_or (P : Prop) : False \/ P <-> P.
+Proof. split; [intros [[]|H]; exact H|intros H; right; exact H]. Qed.
+Lemma emit_out_nil_iff k b : emit_out [] k b <-> False.
+Proof. split; [apply emit_out_nil|intros []]. Qed.
+
+Section Adapters.
+  Variables (c : cfg) (e : env) (prof : str) (ms : list module).
+  Hypothesis Hsel : forall m, In m ms <-> selected c prof m.
+  Hypothesis Hsorted : StronglySorted id_lt ms.
+  Hypothesis Hnd : forall m, In m (c_modules c) -> NoDup (map f_rel (m_files m)).
+  Hypothesis Hok : cfg_ok c.
+
+  Definition rules_out (t : tcfg) (k : key) (b : list N) : Prop :=
+    exists r, In r (doc_rules e t) /\ (opt_on t (fst (rule_opt r)) (snd (rule_opt r)) /\ rule_output c prof t r k b).
+
+  Lemma cursor_spec t : t_name t = t_cursor -> no_fail (snd (cursor_adapter e t ms)) ->
+    forall k b, emit_out (snd (cursor_adapter e t ms)) k b <-> rules_out t k b.
+  Proof.
+    intros Hn Hnf k b. unfold rules_out.
+    assert (Hr : doc_rules e t = [RCursor (s "write_rules") doc_opt_cursor_write_rules (proj e (s ".cursor/rules"))])
+      by (unfold doc_rules; rewrite Hn; reflexivity).
+    rewrite Hr, ex_in_cons, ex_in_nil. cbn [rule_opt fst snd].
+    unfold cursor_adapter in *. cbn [snd] in *.
+    rewrite <- (flag_opt_on t (s "write_rules") doc_opt_cursor_write_rules).
+    change doc_opt_cursor_write_rules with opt_cursor_write_rules.
+    destruct (flag t (s "write_rules") opt_cursor_write_rules).
+    - cbv beta iota in Hnf. cbv beta iota.
+      rewrite (cursor_block c prof ms Hsel Hnd t _ (s "write_rules") opt_cursor_write_rules Hn Hnf k b).
+      unfold proj. tauto.
+    - cbv beta iota in Hnf. cbv beta iota. rewrite flat_map_guard_false. split; [intros H; exfalso; exact (emit_out_nil _ _ H)|intros [[H _]|[]]; discriminate].
+  Qed.
+
+  Lemma collect_nil : collect_parts [] = Ok []. Proof. reflexivity. Qed.
+
+  Lemma simple_agg_spec t w o dc sep dir scan fname :
+    (w = true <-> opt_on t o dc) ->
+    no_fail (snd (simple_agg_adapter (t_name t) w sep dir scan fname ms)) ->
+    forall k b, emit_out (snd (simple_agg_adapter (t_name t) w sep dir scan fname ms)) k b <->
+                (opt_on t o dc /\ rule_output c prof t (RAgg o dc dir fname sep) k b).
+  Proof.
+    intros Hw Hnf k b. unfold simple_agg_adapter in *. cbn [snd] in *. rewrite <- Hw. destruct w.
+    - cbn [when] in *. destruct (collect_parts (mods_for (t_name t) TInstructions ms)) as [parts|x] eqn:Ec;
+        [|exfalso; exact (no_fail_single x Hnf)].
+      rewrite (agg_block c prof ms Hsel Hsorted Hnd t sep parts [(dir, fname)] o dc Ec k b), ex_single1.
+      cbn [fst snd]. tauto.
+    - cbn [when]. rewrite collect_nil. split; [intros H; exfalso; exact (emit_out_nil _ _ H)|intros [H _]; discriminate].
+  Qed.
+
+  Lemma jetbrains_spec t : t_name t = t_jetbrains -> no_fail (snd (jetbrains_adapter e t ms)) ->
+    forall k b, emit_out (snd (jetbrains_adapter e t ms)) k b <-> rules_out t k b.
+  Proof.
+    intros Hn Hnf k b. unfold rules_out.
+    assert (Hr : doc_rules e t = [RAgg (s "write_guidelines") doc_opt_jetbrains_write_guidelines
+                                       (push (e_project e) (s ".junie")) (s "guidelines.md") agg_sep_jetbrains])
+      by (unfold doc_rules; rewrite Hn; reflexivity).
+    rewrite Hr, ex_in_cons, ex_in_nil. cbn [rule_opt fst snd].
+    unfold jetbrains_adapter in *. rewrite <- Hn in *.
+    rewrite (simple_agg_spec t _ (s "write_guidelines") doc_opt_jetbrains_write_guidelines _ _ _ _
+                             (flag_opt_on t _ _) Hnf k b).
+    tauto.
+  Qed.
+
+  Lemma zed_spec t : t_name t = t_zed -> no_fail (snd (zed_adapter e t ms)) ->
+    forall k b, emit_out (snd (zed_adapter e t ms)) k b <-> rules_out t k b.
+  Proof.
+    intros Hn Hnf k b. unfold rules_out.
+    assert (Hr : doc_rules e t = [RAgg (s "write_rules") doc_opt_zed_write_rules (e_project e) (s ".rules") agg_sep_zed])
+      by (unfold doc_rules; rewrite Hn; reflexivity).
+    rewrite Hr, ex_in_cons, ex_in_nil. cbn [rule_opt fst snd].
+    unfold zed_adapter in *. rewrite <- Hn in *.
+    rewrite (simple_agg_spec t _ (s "write_rules") doc_opt_zed_write_rules _ _ _ _ (flag_opt_on t _ _) Hnf k b).
+    tauto.
+  Qed.
+
+  Lemma tilde_cmds : expand_tilde e (s "~/.claude/commands") = push (e_home e) (s ".claude/commands").
+  Proof. reflexivity. Qed.
+  Lemma tilde_skills : expand_tilde e (s "~/.claude/skills") = push (e_home e) (s ".claude/skills").
+  Proof. reflexivity. Qed.
+
+  Lemma claude_spec t : t_name t = t_claude -> no_fail (snd (claude_adapter e t ms)) ->
+    forall k b, emit_out (snd (claude_adapter e t ms)) k b <-> rules_out t k b.
+  Proof.
+    intros Hn Hnf k b. unfold rules_out.
+    assert (Hr : doc_rules e t =
+      [ RSingle TCommand (s "write_user_commands") doc_opt_claude_code_write_user_commands (push (e_home e) (s ".claude/commands")) (fun n => n);
+        RSingle TCommand (s "write_repo_commands") doc_opt_claude_code_write_repo_commands (push (e_project e) (s ".claude/commands")) (fun n => n);
+        RSkills (s "write_user_skills") doc_opt_claude_code_write_user_skills (push (e_home e) (s ".claude/skills"));
+        RSkills (s "write_repo_skills") doc_opt_claude_code_write_repo_skills (push (e_project e) (s ".claude/skills")) ])
+      by (unfold doc_rules; rewrite Hn; reflexivity).
+    rewrite Hr, !ex_in_cons, ex_in_nil. cbn [rule_opt fst snd].
+    unfold claude_adapter in *. cbn [snd] in *. rewrite tilde_cmds, tilde_skills in *. rewrite <- Hn in *.
+    apply no_fail_app in Hnf as [Hnf1 Hnf2]. rewrite emit_out_app.
+    rewrite (single_block c prof ms Hsel Hok t TCommand _ _ _ (s "write_user_commands") doc_opt_claude_code_write_user_commands
+                          (or_intror eq_refl) Hnf1 k b).
+    rewrite ex_when2.
+    rewrite <- !flag_opt_on.
+    change doc_opt_claude_code_write_user_commands with opt_claude_code_write_user_commands.
+    change doc_opt_claude_code_write_repo_commands with opt_claude_code_write_repo_commands.
+    change doc_opt_claude_code_write_user_skills with opt_claude_code_write_user_skills.
+    change doc_opt_claude_code_write_repo_skills with opt_claude_code_write_repo_skills.
+    destruct (flag t (s "write_user_skills") opt_claude_code_write_user_skills || flag t (s "write_repo_skills") opt_claude_code_write_repo_skills) eqn:G;
+      cbv beta iota in Hnf2; cbv beta iota.
+    - rewrite (skills_block c prof ms Hsel t _ (s "write_user_skills") opt_claude_code_write_user_skills Hnf2 k b), ex_when2.
+      rewrite !ro_skills, !ro_single. rewrite or_false_r, or_assoc. reflexivity.
+    - apply orb_false_elim in G as [G1 G2]. rewrite G1, G2, flat_map_guard_false, emit_out_nil_iff, !false_and.
+      rewrite !ro_single. rewrite !or_false_r. reflexivity.
+  Qed.
+End Adapters.
